@@ -81,11 +81,16 @@ Const == UNCHANGED <<ops, init0>>
 Goto(p, to) == pc' = [pc EXCEPT ![p] = to]
 Found(p, old, r) == loc' = [loc EXCEPT ![p] = [old |-> old, r |-> r]]
 
+(* the calls of the goroutines: enough joins / leaves among them; goroutine numbers carry *)
+(* no meaning, so only one of the renumberings (non-decreasing CallKey) is taken           *)
+PoolCalls == {c \in M!Calls : c.op \in CallOps}
+OpsChoices == {o \in [Procs -> PoolCalls] :
+                 /\ Cardinality({p \in Procs : M!Mutator(o[p])}) >= MinMutators
+                 /\ \A p \in Procs : p + 1 \in Procs => CallKey(o[p]) <= CallKey(o[p + 1])}
+
 Init ==
   /\ init0 \in [Addr -> Node \cup {None}]
-  /\ ops \in {o \in [Procs -> {c \in M!Calls : c.op \in CallOps}] :
-                /\ Cardinality({p \in Procs : M!Mutator(o[p])}) >= MinMutators
-                /\ \A p \in Procs : p + 1 \in Procs => CallKey(o[p]) <= CallKey(o[p + 1])}
+  /\ ops \in OpsChoices
   /\ addrT = init0
   /\ list = [n \in Node |-> ListOf(init0, n)]
   /\ lock = [a \in Addr |-> 0]
